@@ -13,6 +13,8 @@
 //                  literal each entry runs; the command labels; every pkg/ecosystem/* Name constant
 //   VersDispatch.v schemeToContains with the ecosystem each <x>Contains builds, and the toRanges
 //                  switch (label -> interval printer)
+//   Code/<Eco>.v   per package: Gallina translation of every function in the loop-free fragment
+//                  (code.go, CODE.md); tied to the models by coq/Tie/<Eco>.v
 //   Effects.v      per package: package-level variables, and every statement that writes through
 //                  something that is not a local of the enclosing function (C19)
 // A file is rewritten only when its content changes.  Lines "changed <file>" / "stale <item>" /
@@ -112,6 +114,7 @@ func main() {
 	write("Registry.v", wholeFile("Registry.v", "CLI registry", genRegistry))
 	write("VersDispatch.v", wholeFile("VersDispatch.v", "VERS dispatch", genVersDispatch))
 	write("Effects.v", genEffects())
+	genCode()
 	for _, p := range fallbacks {
 		fmt.Println("fallback " + p)
 	}
